@@ -1545,3 +1545,127 @@ Lemma bridge_hyps_example (r0 : point (F:=F)) (q : gprim -> gprim -> point (F:=F
 Proof. cbv zeta. repeat split; intros; auto. Qed.
 
 End P.
+
+(* ------------------------------------------------------------------ *)
+(* the headline statement                                               *)
+(* ------------------------------------------------------------------ *)
+(* One descriptor list [descr_basis basis] serves BOTH halves, in the same order and with the same
+   weights and signs, for all shells, angular momenta, contraction lengths, segment numbers, coordinate
+   types, points, derivative orders, moment origins and orders (no bound).  Not covered here: the optional
+   `transform` argument of the two-index integrals (C09 relates it to the untransformed matrices; the
+   one-index side with a transform is same_function_eval_transformed). *)
+Theorem same_function_objects {F : Type} (K : Fops F) (Kf : is_field K) (Hapx : forall x, fapx K x = x)
+        (basis : list (shell F)) (pts : list (point (F:=F))) (o : comp)
+        (Cx Cy Cz : F) (orders : list comp) (d : nat) :
+  fadd K (f1 K) (f1 K) <> f0 K -> Forall shell_wf basis ->
+  (forall sa sb, In sa basis -> In sb basis -> exps_ok K sa sb) ->
+  d < length orders ->
+  let ds := descr_basis K basis in
+  evaluate_deriv_basis_model K basis pts o None General = Some (map (fun bf => map (deriv_spec K o bf) pts) ds)
+  /\ evaluate_basis_model K basis pts None = map (fun bf => map (eval_spec K bf) pts) ds
+  /\ overlap_integral K basis None = outer (pair_spec K (Iov K)) ds ds
+  /\ map (map (fun v => nth d v (f0 K))) (moment_integral K Cx Cy Cz orders basis None)
+     = outer (pair_spec K (Imom K Cx Cy Cz (nth d orders (0, 0, 0)))) ds ds
+  /\ kinetic_integral K basis None = outer (pair_spec K (Ikin K)) ds ds.
+Proof.
+  intros H2 Hwf Hexp Hd ds.
+  assert (Hok : Forall comps_ok basis).
+  { rewrite Forall_forall in *. intros s Hs. now destruct (Hwf s Hs). }
+  repeat split.
+  - now apply same_function_eval.
+  - now apply same_function_eval_values.
+  - now apply same_function_overlap.
+  - now apply same_function_moment.
+  - now apply same_function_kinetic.
+Qed.
+
+(* what a descriptor is (the definitions, restated): segment-major; Cartesian functions in the order of
+   comps_of with weight norm_cont x coefficient x norm_prim; spherical functions = rows of
+   generate_transformation applied to the segment's Cartesian descriptors *)
+Lemma descr_structure {F : Type} (K : Fops F) (s : shell F) :
+  descr K s = concat (mk (nseg s) (fun m =>
+    let carts := mk (length (comps_of s)) (cart_desc K s m) in
+    if s_sph s then map (fun trow => dcomb K trow carts) (shell_transform K s) else carts))
+  /\ forall m ic,
+     cart_desc K s m ic
+     = map (fun ae : F * list F =>
+              mkT (fmul K (nth ic (nth m (norm_cont K s) []) (f0 K))
+                          (fmul K (nth m (snd ae) (f0 K))
+                                  (norm_prim K (s_l s) (nth ic (comps_of s) (0, 0, 0)) (fst ae))))
+                  (mkG (s_x s) (s_y s) (s_z s) (fst ae) (nth ic (comps_of s) (0, 0, 0))))
+           (combine (s_exps s) (s_coeffs s)).
+Proof. split; reflexivity. Qed.
+
+(* ------------------------------------------------------------------ *)
+(* concrete instance (Qc, vm_compute): a generalized Cartesian p shell (K = 2, M = 2) off the origin and a
+   spherical d shell; the oracle closures are arbitrary computable functions (the identities are algebraic) *)
+(* ------------------------------------------------------------------ *)
+From Coq Require Import ZArith QArith Qcanon.
+Module Ex.
+Definition q (n : Z) (d : positive) : Qc := qc_of n d.
+Definition KQ : Fops Qc :=
+  QcK true (q 3 1) (fun x => x) (fun x => qc_div (q 1 1) (qc_add (q 1 1) (qc_mul x x))) (fun x => x) (fun _ x => x).
+Definition sP : shell Qc :=
+  mkShell Qc 1 (q 1 2) (q (-1) 4) (q 0 1) [q 1 2; q 5 4] [[q 1 1; q 1 2]; [q (-1) 4; q 2 1]] false [] [].
+Definition sD : shell Qc :=
+  mkShell Qc 2 (q 0 1) (q 1 4) (q (-1) 2) [q 3 4] [[q 1 1]] true [] [].
+Definition basis : list (shell Qc) := [sP; sD].
+Definition pts : list (point (F:=Qc)) := [(q 1 4, q 0 1, q (-3) 8); (q 0 1, q 1 4, q (-1) 2)].
+Definition ds := descr_basis KQ basis.
+
+Fixpoint list_eqb {A} (e : A -> A -> bool) (a b : list A) : bool :=
+  match a, b with
+  | [], [] => true
+  | x :: a', y :: b' => e x y && list_eqb e a' b'
+  | _, _ => false
+  end.
+Definition mat_eqb := list_eqb (list_eqb qc_eqb).
+
+Lemma ex_sizes : length ds = 11%nat /\ length (descr KQ sP) = 6%nat /\ length (descr KQ sD) = 5%nat.
+Proof. unfold ds, descr_basis, basis. cbn [map concat]. rewrite !app_length, !descr_length, !nrows_eq. cbn. auto. Qed.
+
+Lemma ex_eval :
+  mat_eqb (evaluate_basis_model KQ basis pts None) (map (fun bf => map (eval_spec KQ bf) pts) ds) = true.
+Proof. vm_compute. reflexivity. Qed.
+
+Lemma ex_deriv :
+  match evaluate_deriv_basis_model KQ basis pts (1, 0, 2)%nat None General with
+  | Some m => mat_eqb m (map (fun bf => map (deriv_spec KQ (1, 0, 2)%nat bf) pts) ds)
+  | None => false
+  end = true.
+Proof. vm_compute. reflexivity. Qed.
+
+Lemma ex_overlap : mat_eqb (overlap_integral KQ basis None) (outer (pair_spec KQ (Iov KQ)) ds ds) = true.
+Proof. vm_compute. reflexivity. Qed.
+
+Lemma ex_kinetic : mat_eqb (kinetic_integral KQ basis None) (outer (pair_spec KQ (Ikin KQ)) ds ds) = true.
+Proof. vm_compute. reflexivity. Qed.
+
+Lemma ex_moment :
+  mat_eqb (map (map (fun v => nth 1 v (f0 KQ)))
+             (moment_integral KQ (q 1 4) (q 0 1) (q (-1) 2) [(1, 0, 0); (0, 2, 1)]%nat basis None))
+          (outer (pair_spec KQ (Imom KQ (q 1 4) (q 0 1) (q (-1) 2) (0, 2, 1)%nat)) ds ds) = true.
+Proof. vm_compute. reflexivity. Qed.
+
+(* the hypotheses of same_function_objects hold for this instance *)
+Lemma ex_hyps :
+  is_field KQ /\ (forall x, fapx KQ x = x) /\ fadd KQ (f1 KQ) (f1 KQ) <> f0 KQ /\ Forall shell_wf basis
+  /\ (forall sa sb, In sa basis -> In sb basis -> exps_ok KQ sa sb).
+Proof.
+  split; [apply QcK_field|]. split; [reflexivity|]. split.
+  { intro H. apply (f_equal this) in H. vm_compute in H. discriminate. }
+  split.
+  { assert (W : forall s : shell Qc, s_comps s = [] -> (0 < nseg s)%nat -> s_labels s = [] -> shell_wf s).
+    { intros s Hc Hn Hl. split; [now apply default_comps_ok|]. split; [exact Hn|].
+      intros _. unfold labels_of. rewrite Hl. unfold default_labels.
+      destruct (Nat.eqb (s_l s) 1); [discriminate|]. intro E. apply (f_equal (@length _)) in E.
+      rewrite app_length, !map_length, !seq_length in E. cbn in E. lia. }
+    constructor; [apply W; [reflexivity|cbn; lia|reflexivity]|].
+    constructor; [apply W; [reflexivity|cbn; lia|reflexivity]|constructor]. }
+  intros sa sb Ha Hb alpha beta Hal Hbe H.
+  apply (f_equal this) in H.
+  cbn in Ha, Hb. destruct Ha as [<-|[<-|[]]]; destruct Hb as [<-|[<-|[]]]; cbn in Hal, Hbe;
+    repeat (destruct Hal as [<-|Hal]; [|try contradiction]); 
+    repeat (destruct Hbe as [<-|Hbe]; [|try contradiction]); vm_compute in H; discriminate.
+Qed.
+End Ex.
